@@ -69,8 +69,10 @@ UseValue(pool, v) ==
                r  == IF v < iv.high THEN << Iv(v + 1, iv.high) >> ELSE <<>>
            IN  [ok |-> TRUE, pool |-> Splice(pool, i, i, l \o r)]
 
-(* deallocate(v): precondition lo <= v <= hi and v is used.  Four neighbour cases. *)
+(* deallocate(v): precondition lo <= v <= hi.  Releasing a value that is already free changes nothing (the set of free
+   integers already contains it); for a used value: four neighbour cases. *)
 Deallocate(pool, v) ==
+  IF IndexOf(pool, v) # 0 THEN pool ELSE
   LET k     == Below(pool, v)                       \* left neighbour index (0 = none)
       hasL  == k >= 1
       hasR  == k + 1 <= Len(pool)
